@@ -1117,6 +1117,28 @@ func dedup(xs []string) []string {
 
 var _ = net.IP{}
 
+// malformed: requests an endpoint can forward but the FSM rejects without touching the store
+// (unknown operation names, empty ids): donor and restored store must reject them alike.
+func (g *wgen) malformed() wcmd {
+	switch g.rng.Intn(7) {
+	case 0:
+		return g.mk("malformed:kvs-op", "kvs bogus-op", mustEncode(structs.KVSRequestType, &structs.KVSRequest{Datacenter: "dc1", Op: api.KVOp("bogus"), DirEnt: structs.DirEntry{Key: "a"}}))
+	case 1:
+		return g.mk("malformed:session-op", "session bogus-op", mustEncode(structs.SessionRequestType, &structs.SessionRequest{Datacenter: "dc1", Op: structs.SessionOp("bogus"), Session: structs.Session{ID: g.pick(uni.sessIDs)}}))
+	case 2:
+		return g.mk("malformed:session-empty-id", "session create with empty id", mustEncode(structs.SessionRequestType, &structs.SessionRequest{Datacenter: "dc1", Op: structs.SessionCreate, Session: structs.Session{Node: g.nodeName()}}))
+	case 3:
+		return g.mk("malformed:tombstone-op", "tombstone bogus-op", mustEncode(structs.TombstoneRequestType, &structs.TombstoneRequest{Datacenter: "dc1", Op: structs.TombstoneOp("bogus")}))
+	case 4:
+		return g.mk("malformed:query-op", "prepared query bogus-op", mustEncode(structs.PreparedQueryRequestType, &structs.PreparedQueryRequest{Datacenter: "dc1", Op: structs.PreparedQueryOp("bogus"), Query: &structs.PreparedQuery{ID: g.pick(uni.queryIDs)}}))
+	case 5:
+		return g.mk("malformed:ca-op", "ca bogus-op", mustEncode(structs.ConnectCARequestType, &structs.CARequest{Op: structs.CAOp("bogus"), Datacenter: "dc1"}))
+	default:
+		return g.mk("malformed:txn-kv-verb", "txn with an unknown kv verb", mustEncode(structs.TxnRequestType, &structs.TxnRequest{Datacenter: "dc1",
+			Ops: structs.TxnOps{{KV: &structs.TxnKVOp{Verb: api.KVOp("bogus"), DirEnt: structs.DirEntry{Key: "a"}}}, {KV: &structs.TxnKVOp{Verb: api.KVSet, DirEnt: structs.DirEntry{Key: "zz"}}}}}))
+	}
+}
+
 // next picks the next command according to the mix.
 func (g *wgen) next() wcmd {
 	g.idx += uint64(1 + g.rng.Intn(3))
@@ -1141,6 +1163,9 @@ func (g *wgen) next() wcmd {
 	}
 	if len(g.existingNodes("")) == 0 && g.rng.Intn(3) > 0 {
 		k = 0
+	}
+	if g.rng.Intn(40) == 0 {
+		return g.malformed()
 	}
 	if g.mix == "mesh" && !g.vipsOn && g.rng.Intn(3) > 0 {
 		// most connect deployments have virtual IPs enabled from the start
